@@ -2,6 +2,7 @@
    Statements only; proofs live in UserTrig/UserTrigProofs.v. *)
 From PV Require Import Base.Tac UserTrig.UserTrigDefs UserTrig.UserTrigProofs.
 From PV Require UserTrig.ArriveDefs UserTrig.ArriveProofs.
+From PV Require Gen.Gen_usertrig Gen.GenEq_usertrig.
 Local Open Scope Z_scope.
 
 (* every process other than the root is the destination of exactly one
@@ -34,6 +35,18 @@ Print Assumptions C12_children_distinct.
 Theorem C12_children_in_range : forall n root me i r, 0 < n -> sends n root me i r -> 0 <= r < n.
 Proof. exact sends_in_range. Qed.
 Print Assumptions C12_children_in_range.
+
+(* translator tie: the destinations computed by the C text of parsec_termdet_signal_termination (the
+   initialisers of my_rank, nb_children, child, real_child, translated on every run into
+   Gen/Gen_usertrig.v) are the [children] the theorems above are about *)
+Theorem C12_children_are_the_code : forall n root me, 0 < n -> 0 <= root < n -> 0 <= me < n ->
+  let s := Gen_usertrig.parsec_termdet_signal_termination__my_rank me root n in
+  map (fun i => Gen_usertrig.parsec_termdet_signal_termination__real_child
+                  (Gen_usertrig.parsec_termdet_signal_termination__child s i) root n)
+      (map Z.of_nat (seq 0 (Z.to_nat (Gen_usertrig.parsec_termdet_signal_termination__nb_children s n))))
+  = children n root me.
+Proof. exact GenEq_usertrig.children_are_the_code. Qed.
+Print Assumptions C12_children_are_the_code.
 
 (* ---- arrival of the notification at a process (UserTrig/ArriveDefs.v) ----
    whatever the moment at which the notification arrives relative to the registration of the
